@@ -193,7 +193,8 @@ func isTiff(buf []byte) bool {
 
 // IsTiffLittleEndian checks the buf for the Tiff LittleEndian Signature
 func IsTiffLittleEndian(buf []byte) bool {
-	return buf[0] == 0x49 &&
+	return len(buf) >= 4 &&
+		buf[0] == 0x49 &&
 		buf[1] == 0x49 &&
 		buf[2] == 0x2a &&
 		buf[3] == 0x00
@@ -201,7 +202,8 @@ func IsTiffLittleEndian(buf []byte) bool {
 
 // IsTiffBigEndian checks the buf for the TiffBigEndianSignature
 func IsTiffBigEndian(buf []byte) bool {
-	return buf[0] == 0x4d &&
+	return len(buf) >= 4 &&
+		buf[0] == 0x4d &&
 		buf[1] == 0x4d &&
 		buf[2] == 0x00 &&
 		buf[3] == 0x2a
